@@ -36,7 +36,7 @@ macro_rules! cmp8 {
     ($name:ident, $L:ident, $LT:ty, $FA:ident, $fa:expr, $R:ident, $RT:ty) => {
         #[cfg(kani)]
         #[kani::proof]
-        fn $name() {
+        pub fn $name() {
             let (a, b): ($LT, $RT) = (kani::any(), kani::any());
             let fb = any_frac8();
             let o = ord_i64((a as i64) << fb, (b as i64) << $fa);
@@ -60,7 +60,7 @@ cmp8_all! { l0, U0, 0; l1, U1, 1; l2, U2, 2; l3, U3, 3; l4, U4, 4; l5, U5, 5; l6
 
 #[cfg(kani)]
 #[kani::proof]
-fn derived_ops() {
+pub fn derived_ops() {
     let (a, b): (i8, u8) = (kani::any(), kani::any());
     let o = ord_i64((a as i64) << 7, (b as i64) << 2);
     check_ops!(FixedI8::<U2>::from_bits(a), FixedU8::<U7>::from_bits(b), o);
@@ -72,7 +72,7 @@ macro_rules! cmpx {
     ($name:ident, $L:ident, $LT:ty, $FA:ident, $fa:expr, $R:ident, $RT:ty, $FB:ident, $fb:expr) => {
         #[cfg(kani)]
         #[kani::proof]
-        fn $name() {
+        pub fn $name() {
             let (a, b): ($LT, $RT) = (kani::any(), kani::any());
             let o = ((a as i128) << $fb).cmp(&((b as i128) << $fa));
             check_ops!($L::<$FA>::from_bits(a), $R::<$FB>::from_bits(b), o);
@@ -91,7 +91,7 @@ cmpx!(x_i32f0_u64f32, FixedI32, i32, U0, 0, FixedU64, u64, U32, 32);
 // 128-bit operands: the oracle compares (a * 2^fb) with (b * 2^fa) through the shifted-out high parts
 #[cfg(kani)]
 #[kani::proof]
-fn x_i128f0_u128f0() {
+pub fn x_i128f0_u128f0() {
     let (a, b): (i128, u128) = (kani::any(), kani::any());
     let o = if a < 0 { Ordering::Less } else { (a as u128).cmp(&b) };
     check_ops!(FixedI128::<U0>::from_bits(a), FixedU128::<U0>::from_bits(b), o);
@@ -99,7 +99,7 @@ fn x_i128f0_u128f0() {
 }
 #[cfg(kani)]
 #[kani::proof]
-fn x_i128f127_i8f0() {
+pub fn x_i128f127_i8f0() {
     let (a, b): (i128, i8) = (kani::any(), kani::any());
     // a / 2^127 is in [-1, 1); b is an integer
     let o = if b >= 1 { Ordering::Less } else if b <= -2 { Ordering::Greater } else if b == 0 { a.cmp(&0) }
@@ -113,7 +113,7 @@ macro_rules! cmp_int {
     ($name:ident, $L:ident, $LT:ty, $I:ty) => {
         #[cfg(kani)]
         #[kani::proof]
-        fn $name() {
+        pub fn $name() {
             let a: $LT = kani::any();
             let n: $I = kani::any();
             let fa = any_frac8();
@@ -138,7 +138,7 @@ cmp_int!(u8_vs_int_isize, FixedU8, u8, isize);
 // same-type Eq / Ord / Hash coincide with the bits
 #[cfg(kani)]
 #[kani::proof]
-fn same_type_eq_ord() {
+pub fn same_type_eq_ord() {
     let (a, b): (i32, i32) = (kani::any(), kani::any());
     let (x, y) = (FixedI32::<U7>::from_bits(a), FixedI32::<U7>::from_bits(b));
     assert!(x.cmp(&y) == a.cmp(&b));
@@ -205,7 +205,7 @@ macro_rules! cmp_float {
     ($name:ident, $L:ident, $LT:ty, $FA:ident, $fa:expr, $FT:ident, $BT:ty, $ord:ident) => {
         #[cfg(kani)]
         #[kani::proof]
-        fn $name() {
+        pub fn $name() {
             let a: $LT = kani::any();
             let bits: $BT = kani::any();
             let o = $ord(a as i64, $fa, bits);
@@ -228,7 +228,7 @@ cmp_float_all! { f0, U0, 0; f1, U1, 1; f2, U2, 2; f3, U3, 3; f4, U4, 4; f5, U5, 
 // all six operators in both orders, NaN included (le / ge have their own NaN test in the code)
 #[cfg(kani)]
 #[kani::proof]
-fn float_derived_ops() {
+pub fn float_derived_ops() {
     let a: i8 = kani::any();
     let bits: u32 = kani::any();
     let o = f32_ord(a as i64, 3, bits);
@@ -238,7 +238,7 @@ fn float_derived_ops() {
 // a wider left-hand side
 #[cfg(kani)]
 #[kani::proof]
-fn i32f0_vs_f32() {
+pub fn i32f0_vs_f32() {
     let a: i32 = kani::any();
     let bits: u32 = kani::any();
     let o = f32_ord(a as i64, 0, bits);
